@@ -366,7 +366,11 @@ func init() {
 
 	// ---------------- strings / bytes on possibly symbolic data ----------------
 	reg("strings.Contains", func(g *G, fr *Frame, fn *ssa.Function, a []Value) Value {
-		return Bool{C: strings.Contains(concStr(g, a[0]), concStr(g, a[1]))}
+		r, unk := strContains(a[0].(Str), a[1].(Str))
+		if unk {
+			g.inconclusive("strings.Contains over opaque text")
+		}
+		return r
 	})
 	reg("strings.Index", func(g *G, fr *Frame, fn *ssa.Function, a []Value) Value {
 		return I64(int64(strings.Index(concStr(g, a[0]), concStr(g, a[1]))))
@@ -453,4 +457,70 @@ func init() {
 		*p = zero(fn.Signature.Results().At(0).Type().Underlying().(*types.Pointer).Elem())
 		return p
 	})
+}
+
+func init() {
+	regV("PaddedReader", func(g *G, a []Value) Value {
+		head := g.asBlob(a[0])
+		pad := a[1].(Int)
+		p := new(Value)
+		s := zero(g.run.P.NamedType("bytes", "Reader")).(Struct)
+		b := &Blob{Segs: append(append([]BSeg{}, head.Segs...), BSeg{Pad: pad.Term(64)})}
+		if pad.T == nil && pad.C == 0 {
+			b = head
+		}
+		s[0] = b
+		*p = s
+		return Iface{T: types.NewPointer(g.run.P.NamedType("bytes", "Reader")), V: p}
+	})
+}
+
+// strContains: does h contain n? Exact for strings without opaque tokens; with
+// opaque tokens only a definite "yes" found inside a known run is returned.
+func strContains(h, n Str) (Bool, bool) {
+	if h.IsConc() && n.IsConc() {
+		return Bool{C: strings.Contains(h.C, n.C)}, false
+	}
+	nb, ok := n.Bytes()
+	if !ok {
+		return Bool{}, true
+	}
+	var runs [][]*Term
+	var cur []*Term
+	opaque := false
+	for _, sg := range h.segs() {
+		switch {
+		case sg.Q != "":
+			opaque = true
+			runs = append(runs, cur)
+			cur = nil
+		case sg.B != nil:
+			cur = append(cur, sg.B)
+		default:
+			for i := 0; i < len(sg.C); i++ {
+				cur = append(cur, BVConst(uint64(sg.C[i]), 8))
+			}
+		}
+	}
+	runs = append(runs, cur)
+	res := FalseT
+	for _, r := range runs {
+		for off := 0; off+len(nb) <= len(r); off++ {
+			c := TrueT
+			for i := range nb {
+				c = And(c, Eq(r[off+i], nb[i]))
+				if c.IsConst() && !c.B {
+					break
+				}
+			}
+			res = Or(res, c)
+			if res.IsConst() && res.B {
+				return Bool{C: true}, false
+			}
+		}
+	}
+	if opaque {
+		return Bool{}, true
+	}
+	return mkBool(res), false
 }
